@@ -213,12 +213,33 @@ NOT_APPLICABLE = {}
 ALL = [f"C{i:02d}" for i in range(1, 20)]
 
 
+# what the second round of seeded changes added to each check (appended to the level text)
+ROUND2 = {
+    "C01": " Databases may hold a second insertion near a first one that repeats its bases; alleles with a deletion-insertion variant are outside the domain.",
+    "C02": " Every third case asks the same evidence object again under a second structure; stray evidence = uncatalogued base changes at core-variant positions.",
+    "C03": " Cases with long-read fusion support make a second call on the same Gene object; the enumerator reads the catalogue from a separately loaded object.",
+    "C04": " The refinement is also run on two major calls at once (either order, optional novel core variant), on calls holding one allele several times with its core variant under-represented, and on structures made only of fusion alleles that list variants in the part of the gene they lack.",
+    "C05": " Name styles include names longer than the 200-character limit; planted exact right-hand sides give zero-optimum models with fractional competitors.",
+    "C06": " Reads may contain no-call (N) bases.",
+    "C07": " The sample is also loaded twice with the same Profile object.",
+    "C09": " Stress databases may contain fusion alleles that list variants in the part of the gene they do not retain; region keys of a build may be listed in any order.",
+    "C13": " Table layer: non-catalogue exonic substitutions are transported to both builds and refined in novel mode; equal-score optima that differ between builds are matched as recorded findings only when the exhaustive enumerator confirms both are optimal.",
+    "C14": " Minor-stage operations draw their candidate set and are compared with the same call on a freshly loaded sample.",
+    "C15": " Structures may contain the deletion allele; weak qualifying evidence (random and directed into the window between the two copy-number thresholds); thresholds changed on evidence that has already been genotyped.",
+    "C16": " Indel records may be padded with shared leading bases; multi-allelic sites are written as two records or one 1/2 record.",
+    "C17": " Cases draw a user-supplied structure and the parameters that are not stored in the archive; the shipped BAM is also replayed under the exome profile.",
+    "C18": " Parameter types come from the documented table written into the check.",
+    "C19": " Mode 9: a non-integer minimum depth just above the measured depth; every third case genotypes a healthy sample of the same file name first.",
+}
+
+
 def main():
     checks = []
     for pid in ALL:
         if pid not in CHECKS:
             continue
         tech, text, note, ref = CHECKS[pid]
+        text += ROUND2.get(pid, "")
         checks.append({
             "property_id": pid,
             "quick_cmd": f"./check {pid} --tier quick",
